@@ -689,3 +689,1017 @@ def read_template(lang, text, prelude=""):
             raise Unknown("rust: prelude statements not understood")
         return read_rust(text), env
     return Reader(lang, text, env.keys()).parse(), env
+
+
+# =============================================================================================== evaluator
+class Ctx:
+    def __init__(self, lang, operand, helpers=None, env_asts=None):
+        self.lang, self.operand, self.helpers = lang, operand, helpers or {}
+        self.env_asts = env_asts or {}
+        self.notes = []
+
+
+def _reinterpret(v, dst, what):
+    if v.ty.width != dst.width:
+        raise Unknown(f"{what}: size mismatch {v.ty.name} ({v.ty.width} bit) vs {dst.name} ({dst.width} bit)")
+    return V(dst, v.bits)
+
+
+def _exact(lang, v, tyname, what):
+    """argument of a function with a fixed parameter type: exact type in strict languages, implicit conversion
+    where the language has one"""
+    return convert(lang, v, ltype(lang, tyname), explicit=False)
+
+
+# primitive table: (language, kind, name) -> (receiver/argument type or None, result type, transfer, justification)
+# transfer: 'bits' = same bits under the result type (reinterpretation / same-width conversion)
+#           'ext'  = value-preserving widening by the argument's signedness; 'wrap' = keep the low bits
+PRIMS = {
+    # ---- Rust
+    ("rust", "call", "i64::from"): (None, "i64", "ext", "core `impl From<i8|i16|i32|u8|u16|u32> for i64` is the lossless value-preserving widening"),
+    ("rust", "mcall", "to_bits"): (("f32", "f64"), ("u32", "u64"), "bits", "f32::to_bits / f64::to_bits: raw transmute to u32 / u64"),
+    ("rust", "call", "f32::from_bits"): ("u32", "f32", "bits", "f32::from_bits(u32): raw transmute"),
+    ("rust", "call", "f64::from_bits"): ("u64", "f64", "bits", "f64::from_bits(u64): raw transmute"),
+    ("rust", "call", "::core::mem::MaybeUninit::new"): ("u64", "MaybeUninit<u64>", "bits", "MaybeUninit::new(v) stores v unchanged"),
+    ("rust", "mcall", "assume_init"): ("MaybeUninit<u64>", "u64", "bits", "MaybeUninit::assume_init returns the stored bytes as a u64"),
+    ("rust", "call", "core::char::from_u32_unchecked"): ("u32", "char", "bits", "char::from_u32_unchecked: the u32 is the scalar value, validity ignored"),
+    # ---- C#
+    ("csharp", "call", "global::System.BitConverter.Int32BitsToSingle"): ("int", "float", "bits", ".NET BitConverter.Int32BitsToSingle(int): reinterprets the bits"),
+    ("csharp", "call", "global::System.BitConverter.SingleToInt32Bits"): ("float", "int", "bits", ".NET BitConverter.SingleToInt32Bits(float): reinterprets the bits"),
+    ("csharp", "call", "global::System.BitConverter.Int64BitsToDouble"): ("long", "double", "bits", ".NET BitConverter.Int64BitsToDouble(long): reinterprets the bits"),
+    ("csharp", "call", "global::System.BitConverter.DoubleToInt64Bits"): ("double", "long", "bits", ".NET BitConverter.DoubleToInt64Bits(double): reinterprets the bits"),
+    # ---- Go
+    ("go", "call", "math.Float32frombits"): ("uint32", "float32", "bits", "Go math.Float32frombits(uint32): IEEE 754 bits -> float32"),
+    ("go", "call", "math.Float32bits"): ("float32", "uint32", "bits", "Go math.Float32bits(float32): IEEE 754 bits"),
+    ("go", "call", "math.Float64frombits"): ("uint64", "float64", "bits", "Go math.Float64frombits(uint64)"),
+    ("go", "call", "math.Float64bits"): ("float64", "uint64", "bits", "Go math.Float64bits(float64)"),
+    # ---- MoonBit (core library; methods keyed by receiver type; `T::m(x)` is the same function)
+    ("moonbit", "Byte", "to_int"): ("Byte", "Int", "ext", "Byte::to_int: value-preserving (Byte is 0..255)"),
+    ("moonbit", "Char", "to_int"): ("Char", "Int", "bits", "Char::to_int: the Unicode scalar value"),
+    ("moonbit", "Int", "to_byte"): ("Int", "Byte", "wrap", "Int::to_byte keeps the low 8 bits"),
+    ("moonbit", "Int", "unsafe_to_char"): ("Int", "Char", "bits", "Int::unsafe_to_char: the Int is the scalar value, validity unchecked"),
+    ("moonbit", "UInt", "reinterpret_as_int"): ("UInt", "Int", "bits", "UInt::reinterpret_as_int: same 32 bits"),
+    ("moonbit", "Int", "reinterpret_as_uint"): ("Int", "UInt", "bits", "Int::reinterpret_as_uint: same 32 bits"),
+    ("moonbit", "UInt64", "reinterpret_as_int64"): ("UInt64", "Int64", "bits", "UInt64::reinterpret_as_int64: same 64 bits"),
+    ("moonbit", "Int64", "reinterpret_as_uint64"): ("Int64", "UInt64", "bits", "Int64::reinterpret_as_uint64: same 64 bits"),
+    ("moonbit", "Int", "reinterpret_as_float"): ("Int", "Float", "bits", "Int::reinterpret_as_float = f32.reinterpret_i32"),
+    ("moonbit", "Float", "reinterpret_as_int"): ("Float", "Int", "bits", "Float::reinterpret_as_int = i32.reinterpret_f32"),
+    ("moonbit", "Int64", "reinterpret_as_double"): ("Int64", "Double", "bits", "Int64::reinterpret_as_double = f64.reinterpret_i64"),
+    ("moonbit", "Double", "reinterpret_as_int64"): ("Double", "Int64", "bits", "Double::reinterpret_as_int64 = i64.reinterpret_f64"),
+    ("moonbit", "Int", "to_int64"): ("Int", "Int64", "ext", "Int::to_int64 = i64.extend_i32_s"),
+    ("moonbit", "Int64", "to_int"): ("Int64", "Int", "wrap", "Int64::to_int = i32.wrap_i64"),
+}
+OTHER_RULES = {
+    "rust block `let t = MaybeUninit::<u64>::uninit(); t.as_mut_ptr().cast::<T>().write(x); t`":
+        "wasm is little endian: a T written at offset 0 of the u64 occupies its low size_of::<T>() bytes, the rest stays uninitialised (unknown)",
+    "rust `.as_ptr().cast::<T>().read()` on a MaybeUninit<u64>": "reads the low size_of::<T>() bytes (little endian)",
+    "rust `core::char::from_u32(x).unwrap()`": "returns the same scalar value or panics (a trap, never a different value)",
+    "rust `if cfg!(debug_assertions) {A} else {B}`": "value of B (release); A must agree with B wherever A does not panic",
+    "c `((union U){ e }).b`": "C11 6.5.2.3 fn.95: reading a member other than the one last stored reinterprets the object "
+                              "representation; e is converted to the first member's type (6.7.9p17); member types read from the union definition in the generator",
+    "cpp `std::bit_cast<To, From>(e)`": "C++20 [bit.cast]: the bits of the From value (e converted to From) as a To of the same size",
+    "d `e.reinterpretCast!T`": "helper in crates/d/src/wit_common.d (union pun, constrained to T.sizeof == U.sizeof; text verified on every run)",
+    "moonbit `x.land(c)`": "Int::land is the bitwise and",
+    "moonbit `mbt_ffi_extend8/16`": "inline wasm `i32.extend8_s` / `i32.extend16_s` (body read from crates/moonbit/src/ffi.rs on every run): sign-extends the low 8 / 16 bits",
+    "`x != 0` / `x == 0`": "true iff some / no bit is set",
+    "`c ? a : b`, `if c {a} else {b}`, `match c {true => a, false => b}`": "bitwise multiplexer on the condition bit",
+    "`+ - *`": "exact on constants; on a non-constant operand every result bit is unknown",
+    "`& | ^ << >>` with a constant": "bitwise on the provenance vector (>> is arithmetic for a signed left operand)",
+}
+
+
+def _apply(lang, key, args_types, v, what):
+    argt, rest, how, _ = PRIMS[key]
+    if isinstance(argt, tuple):
+        if v.ty.name not in argt:
+            raise Unknown(f"{what}: receiver of type {v.ty.name}")
+        dst = ltype(lang, rest[argt.index(v.ty.name)])
+    else:
+        dst = ltype(lang, rest)
+        if argt is not None:
+            if v.ty.kind == "lit" and lang == "moonbit":
+                v = convert(lang, v, ltype(lang, argt), False)
+            v = _exact(lang, v, argt, what)
+    if how == "bits":
+        return _reinterpret(v, dst, what)
+    if v.ty.kind != "int":
+        raise Unknown(f"{what}: argument of type {v.ty.name}")
+    if how == "ext" and not (v.ty.width < dst.width or (v.ty.width == dst.width and v.ty.signed == dst.signed)) \
+            or (how == "ext" and v.ty.signed and not dst.signed):
+        raise Unknown(f"{what}: {v.ty.name} -> {dst.name} is not a value-preserving widening")
+    return V(dst, resize(v.bits, v.ty.signed, dst.width))
+
+
+def _unify(lang, a, b):
+    if a.ty.kind == "lit" and b.ty.kind != "lit":
+        return convert(lang, a, b.ty, False), b
+    if b.ty.kind == "lit" and a.ty.kind != "lit":
+        return a, convert(lang, b, a.ty, False)
+    if a.ty.name != b.ty.name:
+        raise Unknown(f"{lang}: operands of different types {a.ty.name} / {b.ty.name}")
+    return a, b
+
+
+BOOL = {lang: LTYPES[lang][_norm("Bool" if lang == "moonbit" else "bool")] for lang in LTYPES}
+
+
+def _truth(lang, v):
+    if v.ty.kind == "bool":
+        return v.bits[0]
+    if lang in ("c", "cpp") and v.ty.kind in ("int", "lit"):
+        return b_anyset(v.bits)
+    raise Unknown(f"{lang}: condition of type {v.ty.name}")
+
+
+def _binop(lang, op, a, b):
+    a, b = _unify(lang, a, b)
+    if op in ("==", "!="):
+        if a.ty.kind not in ("int", "lit", "bool", "char"):
+            raise Unknown(f"{lang}: comparison of {a.ty.name}")
+        diff = b_anyset([b_xor(x, y) for x, y in zip(a.bits, b.bits)])
+        return V(BOOL[lang], [diff if op == "!=" else bnot(diff)])
+    if a.ty.kind not in ("int", "lit"):
+        raise Unknown(f"{lang}: `{op}` on {a.ty.name}")
+    w = a.ty.width
+    if op in ("&", "|", "^"):
+        f = {"&": b_and, "|": b_or, "^": b_xor}[op]
+        return V(a.ty, [f(x, y) for x, y in zip(a.bits, b.bits)])
+    if op in ("<<", ">>"):
+        if not b.is_const:
+            return V(a.ty, [T] * w)
+        n = b.uval()
+        if n >= w:
+            raise Unknown(f"shift by {n} on a {w}-bit value")
+        if op == "<<":
+            return V(a.ty, [0] * n + a.bits[:w - n])
+        return V(a.ty, a.bits[n:] + [a.bits[-1] if a.ty.signed else 0] * n)
+    if op in ("+", "-", "*"):
+        if a.is_const and b.is_const:
+            x, y = a.sval(), b.sval()
+            r = x + y if op == "+" else x - y if op == "-" else x * y
+            return const(a.ty, r & ((1 << w) - 1))
+        return V(a.ty, [T] * w)  # arithmetic on a non-constant value
+    raise Unknown(f"operator `{op}` not modelled")
+
+
+def _values_agree(a, b):
+    return a.ty.name == b.ty.name and a.bits == b.bits
+
+
+def ev(e, cx, env):
+    lang = cx.lang
+    k = e[0]
+    if k == "op":
+        return cx.operand
+    if k == "var":
+        if e[1] in env:
+            return env[e[1]]
+        if e[1] in cx.env_asts:
+            return ev(cx.env_asts[e[1]], cx, env)
+        raise Unknown(f"{lang}: free variable `{e[1]}`")
+    if k == "int":
+        return lit(e[1])
+    if k == "bool":
+        return V(BOOL[lang], [1 if e[1] else 0])
+    if k == "neg":
+        return _binop(lang, "-", lit(0), ev(e[1], cx, env))
+    if k == "cast":
+        return convert(lang, ev(e[2], cx, env), ltype(lang, e[1]), explicit=True)
+    if k == "coerce":
+        return convert(lang, ev(e[2], cx, env), ltype(lang, e[1]), explicit=False)
+    if k == "bin":
+        return _binop(lang, e[1], ev(e[2], cx, env), ev(e[3], cx, env))
+    if k == "cond":
+        c = _truth(lang, ev(e[1], cx, env))
+        a, b = ev(e[2], cx, env), ev(e[3], cx, env)
+        a, b = _unify(lang, a, b)
+        return V(a.ty, [b_mux(c, x, y) for x, y in zip(a.bits, b.bits)])
+    if k == "match":
+        s = ev(e[1], cx, env)
+        arms = dict((p, b) for p, b in e[2] if p != "_")
+        if s.ty.kind == "bool" and set(arms) == {True, False}:
+            return ev(("cond", e[1], arms[True], arms[False]), cx, env)
+        # integer scrutinee with literal arms and a panicking catch-all: a partial function (debug refinement only)
+        wild = [b for p, b in e[2] if p == "_"]
+        if s.ty.kind == "int" and len(wild) == 1 and wild[0] == ("panic",) and s.is_const:
+            if s.uval() in arms:
+                return ev(arms[s.uval()], cx, env)
+            return None  # traps
+        raise Unknown(f"{lang}: match on a non-constant {s.ty.name}")
+    if k == "cfgif":
+        rel = ev(e[2], cx, env)
+        _check_debug_refines(e[1], rel, e[2], cx, env)
+        return rel
+    if k == "block":
+        env = dict(env)
+        for st in e[1]:
+            if st[0] == "let":
+                env[st[1]] = ev(st[2], cx, env)
+            else:
+                _effect(st[1], cx, env)
+        return ev(e[2], cx, env)
+    if k == "compound":
+        return _compound(e, cx, env)
+    if k == "field":
+        base = ev(e[1], cx, env)
+        if base.ref and base.ref[0] == "union":
+            members = base.ref[1]
+            if e[2] not in members:
+                raise Unknown(f"union has no member {e[2]}")
+            return _reinterpret(base, ltype(lang, members[e[2]]), f"union member .{e[2]}")
+        raise Unknown(f"{lang}: field access .{e[2]}")
+    if k == "call":
+        return _call(e, cx, env)
+    if k == "mcall":
+        return _mcall(e, cx, env)
+    if k == "panic":
+        raise Unknown("panic!() reached")
+    raise Unknown(f"AST node {k} not modelled")
+
+
+def _check_debug_refines(debug, rel, rel_ast, cx, env):
+    """`if cfg!(debug_assertions) {A} else {B}`: A must equal B, or be a literal-armed match that agrees with B on
+    every listed constant and panics elsewhere."""
+    if debug[0] == "match" and debug[2] and debug[2][-1] == ("_", ("panic",)):
+        scr = debug[1]
+        if scr[0] != "var" or scr[1] not in env:
+            raise Unknown("debug branch matches on something other than a parameter")
+        for pat, body in debug[2][:-1]:
+            env2 = dict(env)
+            env2[scr[1]] = const(env[scr[1]].ty, pat)
+            a, b = ev(body, cx, env2), ev(rel_ast, cx, env2)
+            if not _values_agree(a, b):
+                raise Unknown(f"debug and release branches disagree for input {pat}: {a.show()} vs {b.show()}")
+        return
+    a = ev(debug, cx, env)
+    if not _values_agree(a, rel):
+        raise Unknown(f"debug branch computes {a.show()} but release branch {rel.show()}")
+
+
+def _effect(e, cx, env):
+    """statement with an effect on a local: `t.as_mut_ptr().cast::<T>().write(x)`"""
+    if e[0] == "mcall" and e[2] == "write" and len(e[4]) == 1:
+        c = e[1]
+        if c[0] == "mcall" and c[2] == "cast" and len(c[3]) == 1 and c[1][0] == "mcall" and c[1][2] == "as_mut_ptr" \
+                and c[1][1][0] == "var" and c[1][1][1] in env and env[c[1][1][1]].ty.kind == "mu":
+            var = c[1][1][1]
+            ty = ltype(cx.lang, c[3][0])
+            x = ev(e[4][0], cx, env)
+            if x.ty.name != ty.name:
+                raise Unknown(f"write::<{ty.name}> of a {x.ty.name}")
+            old = env[var]
+            env[var] = V(old.ty, x.bits + old.bits[ty.width:])
+            return
+    raise Unknown(f"{cx.lang}: statement not modelled in a conversion template")
+
+
+def _compound(e, cx, env):
+    ty = e[1]
+    if not ty.startswith("union "):
+        raise Unknown(f"compound literal of {ty}")
+    members = (cx.helpers.get("unions") or {}).get(ty.split()[1])
+    if members is None:
+        raise Unknown(f"definition of `{ty}` not found in the generator source")
+    first = next(iter(members))
+    v = convert(cx.lang, ev(e[2], cx, env), ltype(cx.lang, members[first]), explicit=False)
+    if len({ltype(cx.lang, t).width for t in members.values()}) != 1:
+        raise Unknown(f"`{ty}` has members of different sizes")
+    return V(v.ty, v.bits, ref=("union", members))
+
+
+def _call(e, cx, env):
+    lang, name, targs = cx.lang, e[1], e[2]
+    args = [ev(a, cx, env) for a in e[3]]
+    key = (lang, "call", name)
+    if key in PRIMS and len(args) == 1:
+        return _apply(lang, key, None, args[0], name)
+    if lang == "rust":
+        if name == "::core::mem::MaybeUninit::uninit" and not args:
+            if not cx.helpers.get("uninit_u64"):
+                raise Unknown("MaybeUninit::uninit(): element type not established as u64")
+            return V(ltype(lang, "MaybeUninit<u64>"), [T] * 64)
+        h = (cx.helpers.get("fns") or {}).get(name)
+        if h is not None and len(args) == len(h["params"]):
+            env2 = {}
+            for (pn, pt), a in zip(h["params"], args):
+                if pt is None:  # trait-dispatched `self`
+                    if a.ty.name not in h["impls"]:
+                        raise Unknown(f"{name}: no impl for {a.ty.name} (implemented for {h['impls']})")
+                    env2[pn] = a
+                else:
+                    env2[pn] = _exact(lang, a, pt, name)
+            r = ev(h["body"], cx, env2)
+            return convert(lang, r, ltype(lang, h["ret"]), False)
+    if lang == "cpp" and name == "std::bit_cast" and len(targs) == 2 and len(args) == 1:
+        to, frm = ltype(lang, targs[0]), ltype(lang, targs[1])
+        return _reinterpret(convert(lang, args[0], frm, explicit=False), to, "std::bit_cast")
+    if lang == "moonbit":
+        if "::" in name and len(args) >= 1:
+            recv_ty, m = name.split("::", 1)
+            recv = args[0]
+            if recv.ty.kind == "lit":
+                recv = convert(lang, recv, ltype(lang, recv_ty), False)
+            if recv.ty.name != recv_ty:
+                raise Unknown(f"moonbit: {name} applied to a {recv.ty.name}")
+            return _mb_method(recv, m, args[1:], cx)
+        h = (cx.helpers.get("ffi") or {}).get(name)
+        if h is not None and len(args) == 1:
+            a = _exact(lang, args[0], h["param"], name)
+            n = h["extend"]
+            return V(ltype(lang, h["ret"]), a.bits[:n] + [a.bits[n - 1]] * (32 - n))
+    raise Unknown(f"{lang}: function `{name}` is not in the primitive table")
+
+
+def _mb_method(recv, m, args, cx):
+    lang = "moonbit"
+    key = (lang, recv.ty.name, m)
+    if key in PRIMS and not args:
+        return _apply(lang, key, None, recv, f"{recv.ty.name}::{m}")
+    if m == "land" and recv.ty.name in ("Int", "UInt", "Int64", "UInt64") and len(args) == 1:
+        return _binop(lang, "&", recv, args[0])
+    raise Unknown(f"moonbit: method {recv.ty.name}::{m} is not in the primitive table")
+
+
+def _mcall(e, cx, env):
+    lang, m, targs = cx.lang, e[2], e[3]
+    if lang == "rust":
+        # core::char::from_u32(x).unwrap()
+        if m == "unwrap" and e[1][0] == "call" and e[1][1] in ("core::char::from_u32", "char::from_u32") and len(e[1][3]) == 1:
+            x = _exact(lang, ev(e[1][3][0], cx, env), "u32", "char::from_u32")
+            return V(ltype(lang, "char"), x.bits)
+        # x.as_ptr().cast::<T>().read()
+        if m == "read" and not e[4] and e[1][0] == "mcall" and e[1][2] == "cast" and len(e[1][3]) == 1 and \
+                e[1][1][0] == "mcall" and e[1][1][2] == "as_ptr":
+            base = ev(e[1][1][1], cx, env)
+            if base.ty.kind != "mu":
+                raise Unknown(f"as_ptr().cast().read() on a {base.ty.name}")
+            ty = ltype(lang, e[1][3][0])
+            return V(ty, base.bits[:ty.width])
+    recv = ev(e[1], cx, env)
+    args = [ev(a, cx, env) for a in e[4]]
+    if lang == "moonbit":
+        return _mb_method(recv, m, args, cx)
+    if lang == "d" and m == "reinterpretCast" and len(targs) == 1 and not args:
+        if not cx.helpers.get("d_reinterpret"):
+            raise Unknown("d: reinterpretCast helper definition not verified")
+        return _reinterpret(recv, ltype(lang, targs[0]), "reinterpretCast")
+    key = (lang, "mcall", m)
+    if key in PRIMS and not args:
+        return _apply(lang, key, None, recv, f".{m}()")
+    if lang == "rust" and not args:
+        h = (cx.helpers.get("fns") or {}).get(m)
+        if h is not None and h["params"] and h["params"][0][1] is None:
+            return _call(("call", m, [], [e[1]]), cx, env)
+    raise Unknown(f"{lang}: method `.{m}()` on {recv.ty.name} is not in the primitive table")
+
+
+def evaluate(lang, text, operand, helpers=None, prelude=""):
+    ast, env_asts = read_template(lang, text, prelude)
+    cx = Ctx(lang, operand, helpers, env_asts)
+    r = ev(ast, cx, {})
+    if r is None:
+        raise Unknown("evaluation traps")
+    return r
+
+
+# =============================================================================================== template extraction
+class Tmpl:
+    """what an arm pushes: `text` (operand = __OP__), `prelude` = statements written to the source before it"""
+
+    def __init__(self, text, prelude):
+        self.text, self.prelude = text, prelude
+
+    def show(self):
+        return self.text.replace(OPERAND, "{}") + (f"   [after: {' '.join(self.prelude.split())}]" if self.prelude.strip() else "")
+
+
+_STR_PASS = {"clone", "to_string", "to_owned", "into", "as_str", "to_str", "as_ref", "borrow", "as_mut", "trim"}
+
+
+class Extract:
+    """Partial evaluation of the string an arm of `emit` / of a cast function builds (DESIGN §3 E2, template PE)."""
+
+    def __init__(self, fn, operands=None, results=None, operand_str=None):
+        self.fn = fn
+        self.operands, self.results, self.operand_str = operands, results, operand_str
+        self.closures = {n: i for n, i, st in synq.bindings(fn.body) if i is not None and i.get("k") == "closure"}
+        self.pushed = []
+        self.prelude = ""
+
+    # -- symbolic strings are python strings in which the operand is the marker __OP__
+    def s(self, e, env):
+        k = e.get("k")
+        if k == "str":
+            return e["v"]
+        if k == "path":
+            p = e["path"]
+            if p in env:
+                if env[p] is None:
+                    raise Unknown(f"`{p}` is bound to something that is not a string template")
+                return env[p]
+            if p == self.operand_str:
+                return OPERAND
+            raise Unknown(f"value of `{p}` not known")
+        if k == "ref" or (k == "unary" and e["op"] == "*"):
+            return self.s(e["e"], env)
+        if k == "index" and synq.render(e["base"]) == self.operands and synq.render(e["index"]) == "0":
+            return OPERAND
+        if k == "mcall":
+            m = e["method"]
+            if m == "unwrap" and e["recv"].get("k") == "mcall" and e["recv"]["method"] == "pop" and \
+                    synq.render(e["recv"]["recv"]) == self.operands:
+                return OPERAND
+            if m in _STR_PASS and not e["args"]:
+                return self.s(e["recv"], env)
+            if m.startswith("path_to_") and not e["args"]:
+                return m[len("path_to_"):]  # path of a runtime helper: its semantics come from the helper's own text
+            if m == "tmp" and len(e["args"]) == 1 and e["args"][0].get("k") == "str":
+                return "tmp_" + re.sub(r"\W", "_", e["args"][0]["v"])  # a fresh local of the generated function
+        if k == "macro" and synq.short(e["name"]) == "format":
+            return self.fmt(synq.Fmt(e), env)
+        if k == "block":
+            env = dict(env)
+            tail = self.run(e["stmts"], env, want_tail=True)
+            if tail is None:
+                raise Unknown("block without a string tail")
+            return tail
+        raise Unknown(f"string expression `{synq.render(e)[:70]}` not understood")
+
+    def fmt(self, f, env):
+        if f.template is None:
+            raise Unknown("format-like macro without a literal template")
+        out, pos, last = [], 0, 0
+        for m in re.finditer(r"\{\{|\}\}|\{([^{}]*)\}", f.template):
+            out.append(f.template[last:m.start()])
+            last = m.end()
+            g = m.group(0)
+            if g in ("{{", "}}"):
+                out.append(g[0])
+                continue
+            inner = m.group(1)
+            if ":" in inner:
+                raise Unknown(f"format spec `{{{inner}}}` in a conversion template")
+            name = inner.strip()
+            if name == "" or name.isdigit():
+                idx = pos if name == "" else int(name)
+                pos += 1 if name == "" else 0
+                if idx >= len(f.positional):
+                    raise Unknown("format hole without an argument")
+                out.append(self.s(f.positional[idx], env))
+            elif name in f.named:
+                out.append(self.s(f.named[name], env))
+            else:
+                out.append(self.s({"k": "path", "path": name}, env))
+        out.append(f.template[last:])
+        return "".join(out)
+
+    def mentions_io(self, node):
+        names = {self.operands, self.results, self.operand_str} - {None}
+        return any(n.get("k") == "path" and n["path"] in names for n in synq.walk(node))
+
+    def stmt_expr(self, e, env):
+        k = e.get("k")
+        if k == "mcall":
+            recv = synq.render(e["recv"])
+            if e["method"] == "push" and recv == self.results and len(e["args"]) == 1:
+                self.pushed.append(self.s(e["args"][0], env))
+                return
+            if e["method"] == "push_str" and e["recv"].get("k") == "path" and e["recv"]["path"] in env and len(e["args"]) == 1:
+                env[e["recv"]["path"]] = self.s(e["recv"], env) + self.s(e["args"][0], env)
+                return
+            if e["method"] == "push_str" and recv.startswith("self") and len(e["args"]) == 1 and self.mentions_io(e):
+                self.prelude += self.s(e["args"][0], env)
+                return
+        if k == "macro" and synq.short(e["name"]) in ("uwriteln", "uwrite", "writeln", "write"):
+            f = synq.Fmt(e)
+            if self.mentions_io(e) or any(h[1] in env for h in f.holes() if h[0] == "name"):
+                self.prelude += self.fmt(f, env) + "\n"
+            return
+        if k == "call" and e["func"].get("k") == "path" and e["func"]["path"] in self.closures:
+            c = self.closures[e["func"]["path"]]
+            if len(c["params"]) != len(e["args"]):
+                raise Unknown("closure arity")
+            env2 = {p["name"]: self.s(a, env) for p, a in zip(c["params"], e["args"])}
+            body = c["body"]
+            self.run(body["stmts"] if body.get("k") == "block" else [{"k": "expr_stmt", "e": body, "semi": True}], env2)
+            return
+        if k == "block":
+            self.run(e["stmts"], dict(env))
+            return
+        if not self.mentions_io(e):
+            return  # generator bookkeeping (`self.use_ffi(..)`, `self.needs_x = true`, `*need_math = true`)
+        raise Unknown(f"statement `{synq.render(e)[:70]}` touches the operands/results in a way not understood")
+
+    def run(self, stmts, env, want_tail=False):
+        tail = None
+        for i, st in enumerate(stmts):
+            k = st.get("k")
+            if k == "let":
+                init = st.get("init")
+                for b in synq.walk(st["pat"]):
+                    if b.get("k") == "p_ident":
+                        env[b["name"]] = None
+                if st["pat"].get("k") == "p_ident" and init is not None:
+                    try:
+                        env[st["pat"]["name"]] = self.s(init, env)
+                    except Unknown:
+                        if self.mentions_io(init):
+                            raise
+            elif k == "expr_stmt":
+                if want_tail and i == len(stmts) - 1 and not st.get("semi"):
+                    tail = self.s(st["e"], env)
+                else:
+                    self.stmt_expr(st["e"], env)
+            elif k == "item_stmt":
+                continue
+            else:
+                raise Unknown(f"statement kind {k}")
+        return tail
+
+
+def emit_template(fn, arm):
+    """template pushed by an arm of a backend's `Bindgen::emit` for a one-operand, one-result instruction"""
+    ps = [p for p in fn.params if p != "self"]
+    if len(ps) < 4:
+        raise Unknown("emit: unexpected signature")
+    x = Extract(fn, operands=ps[2], results=ps[3])
+    body = arm.body
+    x.run(body["stmts"] if body.get("k") == "block" else [{"k": "expr_stmt", "e": body, "semi": True}], {})
+    if len(x.pushed) != 1:
+        raise Unknown(f"arm pushes {len(x.pushed)} results (expected exactly one)")
+    return Tmpl(x.pushed[0], x.prelude)
+
+
+def cast_template(fn, arm):
+    """string returned by an arm of a backend's cast function"""
+    ps = [p for p, d in zip(fn.params, fn.node["sig"]["params"]) if p != "self" and "str" in d.get("ty", "").lower()]
+    if not ps:
+        raise Unknown("cast function: no string parameter")
+    x = Extract(fn, operand_str=ps[0])
+    body = arm.body
+    if body.get("k") == "block":
+        t = x.run(body["stmts"], {}, want_tail=True)
+    else:
+        t = x.s(body, {})
+    if t is None:
+        raise Unknown("arm has no string value")
+    return Tmpl(t, x.prelude)
+
+
+def instruction_match(fn):
+    """the `match inst { Instruction::.. }` of emit: the match with the most `Instruction::` arms"""
+    best = None
+    for m in synq.matches_in(fn.body):
+        n = sum(1 for a in synq.arms(m) for h in a.heads if "Instruction::" in h)
+        if n >= 20 and (best is None or n > best[0]):
+            best = (n, m)
+    if best is None:
+        raise AnchorMissing(f"{fn.file}: no match over Instruction in emit")
+    return best[1]
+
+
+# =============================================================================================== backend tables
+BACKENDS = {
+    "rust": dict(lang="rust", emit="crates/rust/src/bindgen.rs", cast=("crates/rust/src/lib.rs", "perform_cast"),
+                 types=("crates/rust/src/interface.rs", "print_ty"), wasm=("crates/rust/src/lib.rs", "wasm_type")),
+    "c": dict(lang="c", emit="crates/c/src/lib.rs", cast=("crates/c/src/lib.rs", "perform_cast"),
+              types=("crates/c/src/lib.rs", "push_type_name"), wasm=("crates/c/src/lib.rs", "wasm_type")),
+    "cpp": dict(lang="cpp", emit="crates/cpp/src/lib.rs", cast=("crates/cpp/src/lib.rs", "perform_cast"),
+                types=("crates/cpp/src/lib.rs", "type_name"), wasm=("crates/c/src/lib.rs", "wasm_type"),
+                wasm_via="wit_bindgen_c::wasm_type"),
+    "csharp": dict(lang="csharp", emit="crates/csharp/src/function.rs", cast=("crates/csharp/src/function.rs", "perform_cast"),
+                   types=("crates/csharp/src/interface.rs", "name_with_qualifier"),
+                   wasm=("crates/csharp/src/world_generator.rs", "wasm_type")),
+    "go": dict(lang="go", emit="crates/go/src/lib.rs", cast=("crates/go/src/lib.rs", "cast"),
+               types=("crates/go/src/lib.rs", "type_name"), wasm=("crates/go/src/lib.rs", "wasm_type")),
+    "moonbit": dict(lang="moonbit", emit="crates/moonbit/src/lib.rs", cast=("crates/moonbit/src/lib.rs", "perform_cast"),
+                    types=("crates/moonbit/src/pkg.rs", "type_name"), wasm=("crates/moonbit/src/lib.rs", "wasm_type")),
+    "d": dict(lang="d", emit="crates/d/src/lib.rs", cast=("crates/d/src/lib.rs", "perform_cast"),
+              types=("crates/d/src/lib.rs", "type_name"), wasm=("crates/d/src/lib.rs", "wasm_type")),
+}
+WIT_SCALARS = ["Bool", "U8", "S8", "U16", "S16", "U32", "S32", "U64", "S64", "Char", "F32", "F64"]
+WASM_TYPES = ["I32", "I64", "F32", "F64", "Pointer", "PointerOrI64", "Length"]
+
+
+def _string_table(rel, fname, prefix, keys):
+    """`match x { <prefix>K => "<name>".. }` inside fn `fname` of file rel -> {K: name}; every K needs an explicit
+    arm whose body holds exactly one string literal"""
+    found = []
+    for f in synq.find_fns(rel, fname):
+        for m in synq.matches_in(f.body):
+            heads = {synq.short(h) for a in synq.arms(m) for h in a.heads if h.startswith(prefix) or ("::" + prefix) in h}
+            if not set(keys) <= heads:
+                continue
+            tbl = {}
+            for kk in keys:
+                arms_ = [a for a in synq.arms(m) if any(synq.short(h) == kk and prefix in h for h in a.heads)]
+                strs = synq.strings(arms_[0].body)
+                if len(arms_) != 1 or len(strs) != 1:
+                    tbl = None
+                    break
+                tbl[kk] = strs[0]["v"]
+            if tbl:
+                found.append(tbl)
+    if len(found) != 1:
+        raise AnchorMissing(f"{rel}: fn {fname}: {len(found)} string tables over {prefix}{{{','.join(keys[:3])},..}}")
+    return found[0]
+
+
+_TABLE_CACHE = {}
+
+
+def backend_tables(be):
+    """(WIT scalar -> language type name, WasmType -> language type name), read from the backend's own source"""
+    if be not in _TABLE_CACHE:
+        d = BACKENDS[be]
+        types = _string_table(d["types"][0], d["types"][1], "Type::", WIT_SCALARS)
+        wasm = _string_table(d["wasm"][0], d["wasm"][1], "WasmType::", WASM_TYPES)
+        if d.get("wasm_via"):
+            src = open(os.path.join(facts.REPO, d["emit"])).read()
+            if d["wasm_via"] not in src:
+                raise AnchorMissing(f"{d['emit']} no longer uses {d['wasm_via']} for core types")
+        _TABLE_CACHE[be] = (types, wasm)
+    return _TABLE_CACHE[be]
+
+
+# =============================================================================================== helper definitions
+def _all_strings(rel):
+    return [n["v"] for n in synq.strings(synq.load(rel))]
+
+
+def rust_runtime_helpers():
+    """Helper functions the Rust templates call, parsed from the text the generator itself emits
+    (crates/rust/src/lib.rs: emit_runtime_item / emit_runtime_as_trait).  -> (fns, facts_for_R14_3)"""
+    rel = "crates/rust/src/lib.rs"
+    fns, info = {}, {"as_lists": {}, "as_templates": []}
+    eri = synq.find_fn(rel, "emit_runtime_item")
+    m = synq.find_match(eri.body, "RuntimeItem::", min_arms=5)
+    # bool_lift / char_lift: literal Rust text
+    for item, name in (("BoolLift", "bool_lift"), ("CharLift", "char_lift")):
+        arm = synq.arm_for(m, "RuntimeItem::" + item)
+        if arm is None or "_" in arm.heads:
+            raise AnchorMissing(f"RuntimeItem::{item} arm")
+        txt = [s["v"] for s in synq.strings(arm.body) if f"fn {name}" in s["v"]]
+        if len(txt) != 1:
+            raise AnchorMissing(f"text of {name}")
+        ast = facts.parse_snippet(txt[0])
+        fs = [it for it in ast.get("items", []) if it.get("k") == "fn" and it["sig"]["name"] == name]
+        if len(fs) != 1:
+            raise AnchorMissing(f"{name} does not parse")
+        sig = fs[0]["sig"]
+        fns[name] = dict(params=[(p["pat"]["name"], p["ty"]) for p in sig["params"]], ret=sig["ret"],
+                         body=rust_ast(fs[0]["body"]), impls=None, text=txt[0])
+    # as_<ty> traits
+    g = synq.find_fn(rel, "emit_runtime_as_trait")
+    gp = [p for p in g.params if p != "self"]
+    fmts = [f for f in synq.fmts(g.body) if f.template and "as_{" in f.template]
+    info["as_templates"] = [f.template for f in fmts]
+    for item, ty in (("AsI32", "i32"), ("AsI64", "i64"), ("AsF32", "f32"), ("AsF64", "f64")):
+        arm = synq.arm_for(m, "RuntimeItem::" + item)
+        calls = synq.method_calls(arm.body, "emit_runtime_as_trait") if arm is not None and "_" not in arm.heads else []
+        if len(calls) != 1 or len(calls[0]["args"]) != 2 or calls[0]["args"][0].get("k") != "str":
+            raise AnchorMissing(f"RuntimeItem::{item}: call of emit_runtime_as_trait")
+        tyarg = calls[0]["args"][0]["v"]
+        lst = [s["v"] for s in synq.strings(calls[0]["args"][1])]
+        info["as_lists"][item] = (tyarg, lst)
+        # instantiate the generator's own templates and parse the result as Rust
+        sub = {gp[0]: tyarg, "upcase": tyarg.upper()}
+        items = []
+        for f in fmts:
+            per_type = any(h[1] == gp[1] or h[1] == "to_convert" for h in f.holes())
+            for conv in (lst if per_type else [None]):
+                text = f.template.replace("{{", "\x01").replace("}}", "\x02")
+                for kk, vv in dict(sub, **({"to_convert": conv} if conv else {})).items():
+                    text = text.replace("{" + kk + "}", vv)
+                text = text.replace("\x01", "{").replace("\x02", "}")
+                if re.search(r"\{\w+\}", text):
+                    raise AnchorMissing(f"as-trait template has an unbound hole: {text[:60]}")
+                ast = facts.parse_snippet(text)
+                if "items" not in ast:
+                    raise AnchorMissing(f"instantiated as-trait template does not parse: {ast.get('error')}")
+                items += [(conv, it) for it in ast["items"]]
+        info.setdefault("as_items", {})[item] = items
+        # the per-type impl bodies must all be the same expression; that expression is the helper's body
+        bodies = {}
+        for conv, it in items:
+            if it.get("k") == "impl" and conv is not None and _norm(it["self_ty"]) == _norm(conv):
+                for mfn in it["items"]:
+                    if mfn.get("k") == "fn" and mfn["sig"]["name"] == "as_" + tyarg:
+                        bodies[conv] = mfn["body"]
+        if set(bodies) != set(lst):
+            raise AnchorMissing(f"{item}: impl blocks do not cover the listed types")
+        rendered = {synq.render(b) for b in bodies.values()}
+        if len(rendered) != 1:
+            raise AnchorMissing(f"{item}: impl bodies differ")
+        fns["as_" + tyarg] = dict(params=[("self", None)], ret=tyarg, body=rust_ast(next(iter(bodies.values()))),
+                                  impls=lst, text=next(iter(rendered)))
+    return fns, info
+
+
+def helpers_for(be):
+    """facts about helper definitions, read from the generator source on every run (fail closed when they move)"""
+    h = {}
+    if be == "rust":
+        h["fns"], h["rust_info"] = rust_runtime_helpers()
+        src = open(os.path.join(facts.REPO, "crates/rust/src/lib.rs")).read()
+        h["uninit_u64"] = "MaybeUninit::<u64>::uninit()" in src
+    elif be == "c":
+        h["unions"] = {}
+        for s in _all_strings("crates/c/src/lib.rs"):
+            for m in re.finditer(r"union (\w+) \{+ (\w+) (\w+); (\w+) (\w+); \}+;", s):
+                h["unions"][m.group(1)] = {m.group(3): m.group(2), m.group(5): m.group(4)}
+    elif be == "d":
+        p = os.path.join(facts.REPO, "crates/d/src/wit_common.d")
+        txt = " ".join(open(p).read().split()) if os.path.exists(p) else ""
+        h["d_reinterpret"] = bool(re.search(
+            r"auto ref T reinterpretCast\(T, U\)\(auto ref U from\) @trusted if \(T\.sizeof == U\.sizeof\) \{ "
+            r"union tmp \{ U from; T to; \} return tmp\(from\)\.to; \}", txt))
+    elif be == "moonbit":
+        h["ffi"] = {}
+        for s in _all_strings("crates/moonbit/src/ffi.rs"):
+            for m in re.finditer(r'extern "wasm" fn (\w+)\((\w+) : (\w+)\) -> (\w+) =\s*#\|\(func \(param i32\) \(result i32\) '
+                                 r'local\.get 0 i32\.extend(8|16)_s\)', s):
+                h["ffi"][m.group(1)] = dict(param=m.group(3), ret=m.group(4), extend=int(m.group(5)))
+    return h
+
+
+# =============================================================================================== canonical mapping
+# WIT scalar -> (kind, significant bits n, signed)
+WIT = {"Bool": ("bool", 1, False), "U8": ("int", 8, False), "S8": ("int", 8, True), "U16": ("int", 16, False),
+       "S16": ("int", 16, True), "U32": ("int", 32, False), "S32": ("int", 32, True), "U64": ("int", 64, False),
+       "S64": ("int", 64, True), "Char": ("char", 32, False), "F32": ("float", 32, False), "F64": ("float", 64, False)}
+# instruction -> (direction, WIT scalar, core type)
+SCALAR_INSTRUCTIONS = {}
+for _t in ("Bool", "Char", "U8", "S8", "U16", "S16", "U32", "S32"):
+    SCALAR_INSTRUCTIONS[f"I32From{_t}"] = ("lower", _t, "I32")
+    SCALAR_INSTRUCTIONS[f"{_t}FromI32"] = ("lift", _t, "I32")
+for _t in ("U64", "S64"):
+    SCALAR_INSTRUCTIONS[f"I64From{_t}"] = ("lower", _t, "I64")
+    SCALAR_INSTRUCTIONS[f"{_t}FromI64"] = ("lift", _t, "I64")
+for _t, _c in (("F32", "F32"), ("F64", "F64")):
+    SCALAR_INSTRUCTIONS[f"Core{_c}From{_t}"] = ("lower", _t, _c)
+    SCALAR_INSTRUCTIONS[f"{_t}FromCore{_c}"] = ("lift", _t, _c)
+assert len(SCALAR_INSTRUCTIONS) == 24  # 12 lowerings + 12 liftings
+
+
+def symbolic(ty):
+    return V(ty, [IN(i) for i in range(ty.width)])
+
+
+def _normalise(bits, n, signed):
+    """rewrite provenance under the precondition that the operand holds a valid value of an n-bit WIT type stored
+    in a wider language type: bits >= n equal bit n-1 (signed) or are 0 (unsigned)"""
+    out = []
+    for b in bits:
+        if b in (0, 1, T):
+            out.append(b)
+            continue
+        s2 = set()
+        for i in b[1]:
+            if i < n:
+                s2.add(i)
+            elif signed:
+                s2.add(n - 1)
+        if b[0] == "or":
+            out.append(("or", frozenset(s2)) if s2 else 0)
+        else:
+            out.append(("nor", frozenset(s2)) if s2 else 1)
+    return out
+
+
+def _ext_bits(n, signed, w):
+    return [IN(k) if k < n else (IN(n - 1) if signed else 0) for k in range(w)]
+
+
+def _first_diff(got, want):
+    for i, (g, w_) in enumerate(zip(got, want)):
+        if g != w_:
+            return f"bit {i} is {show_bit(g)}, canonical {show_bit(w_)}"
+    return ""
+
+
+class Verdict:
+    def __init__(self, ok, detail, result=None):
+        self.ok, self.detail, self.result = ok, detail, result
+
+
+def _lower_samples(kind, n, signed):
+    if kind == "bool":
+        return [0, 1]
+    if kind == "float":
+        return [0, 0x3F800000 if n == 32 else 0x3FF0000000000000, (1 << n) - 1, 1 << (n - 1)]
+    if kind == "char":
+        return [0, 0x41, 0xD7FF, 0xE000, 0x10FFFF]
+    if signed:
+        return [0, 1, 5, (1 << (n - 1)) - 1, -1, -5, -(1 << (n - 1))]
+    return [0, 1, 5, (1 << (n - 1)) - 1, 1 << (n - 1), (1 << n) - 1]
+
+
+_LIFT_SAMPLES32 = [0, 1, 5, 127, 128, 255, 256, 0x7FFF, 0x8000, 0xFFFF, 0x10000, 0x7FFFFFFF, 0x80000000, 0xFFFFFF80, 0xFFFFFFFF]
+
+
+def _wrap(v, n, signed):
+    v &= (1 << n) - 1
+    return v - (1 << n) if signed and v >> (n - 1) else v
+
+
+def check_scalar(be, ins, tmpl, helpers=None):
+    """Is `tmpl` (what backend `be` pushes for scalar instruction `ins`) the canonical-ABI mapping?"""
+    lang = BACKENDS[be]["lang"]
+    direction, wit, core = SCALAR_INSTRUCTIONS[ins]
+    kind, n, signed = WIT[wit]
+    try:
+        types, wasm = backend_tables(be)
+        lty, cty = ltype(lang, types[wit]), ltype(lang, wasm[core])
+        src, dst = (lty, cty) if direction == "lower" else (cty, lty)
+        if lty.width < n and kind != "bool":
+            return Verdict(False, f"the backend's type for {wit} ({lty.name}) is narrower than {n} bits")
+
+        def run(operand):
+            r = evaluate(lang, tmpl.text, operand, helpers, tmpl.prelude)
+            return convert(lang, r, dst, explicit=False)
+        r = run(symbolic(src))
+        w = dst.width
+        if direction == "lower":
+            got = _normalise(r.bits, n, signed) if kind in ("int", "bool") and src.width > n else r.bits
+            if kind == "bool":
+                want = [IN(0)] + [0] * (w - 1)
+            elif kind in ("float", "char"):
+                want = [IN(k) for k in range(w)]
+            else:
+                want = _ext_bits(n, signed, w)
+            typeok = dst.kind == ("float" if kind == "float" else "int") and w == (64 if core in ("I64", "F64") else 32)
+        else:
+            got = r.bits
+            if kind == "bool":
+                want = [("or", frozenset(range(src.width)))]
+                typeok = dst.kind == "bool"
+            elif kind == "float":
+                want = [IN(k) for k in range(w)]
+                typeok = dst.kind == "float" and w == n
+            elif kind == "char":
+                want = [IN(k) for k in range(w)]
+                typeok = dst.kind in ("char", "int") and w == 32
+            else:
+                want = _ext_bits(n, signed, w)
+                # the denoted VALUE must be the low n bits read with the WIT type's signedness
+                typeok = dst.kind == "int" and (dst.signed if signed else (not dst.signed or w > n))
+        if not typeok:
+            return Verdict(False, f"result type {dst.name} cannot denote a {wit} ({'lowered' if direction == 'lower' else 'lifted'})", r)
+        if got == want:
+            return Verdict(True, f"{src.name} -> {dst.name}: {show_bits(got)}", r)
+        # diagnostics only: constant-fold the template on a few concrete inputs
+        cex = ""
+        samples = _lower_samples(kind, n, signed) if direction == "lower" else \
+            (_LIFT_SAMPLES32 if src.width == 32 else _LIFT_SAMPLES32 + [1 << 32, (1 << 63), (1 << 64) - 1])
+        for x in samples:
+            try:
+                rc = run(const(src, x & ((1 << src.width) - 1)))
+            except Unknown as e:
+                cex = f"; {ins}({x}) cannot be folded: {e}"
+                break
+            if not rc.is_const:
+                continue
+            if direction == "lower":
+                exp = x & ((1 << w) - 1)
+                bad = rc.uval() != exp
+                shown, expshown = _wrap(rc.uval(), w, True), _wrap(exp, w, True)
+            elif kind == "bool":
+                exp = 1 if x else 0
+                bad = rc.uval() != exp
+                shown, expshown = rc.show(), "true" if exp else "false"
+            elif kind in ("float", "char"):
+                bad = rc.uval() != x
+                shown, expshown = rc.show(), x
+            else:
+                exp = _wrap(x, n, signed)
+                bad = rc.sval() != exp
+                shown, expshown = rc.sval(), exp
+            if bad:
+                xs = _wrap(x, src.width, src.signed) if src.kind == "int" else x
+                cex = f"; counter-example: {ins}({xs}) = {shown}, canonical {expshown}"
+                break
+        return Verdict(False, f"`{tmpl.show()}` is not the canonical mapping {src.name} -> {dst.name}: {_first_diff(got, want)}; "
+                              f"abstract result {show_bits(got)}{cex}", r)
+    except Unknown as e:
+        return Verdict(False, f"`{tmpl.show()}`: not discharged: {e}")
+
+
+# =============================================================================================== Bitcasts (C04 R4.4)
+_ABBR = {"I32": "I32", "I64": "I64", "F32": "F32", "F64": "F64", "P": "Pointer", "P64": "PointerOrI64", "L": "Length"}
+# mode: id = every bit kept; wrap = low bits of the (narrower) target; ext = source bits kept, upper half all-sign or
+# all-zero (the spec's lift wraps, so either extension is accepted); low32 = low 32 bits kept, upper half unconstrained
+BITCAST_MODE = {"F32ToI32": "id", "I32ToF32": "id", "F64ToI64": "id", "I64ToF64": "id", "I64ToI32": "wrap", "I64ToL": "wrap",
+                "I32ToI64": "ext", "LToI64": "ext", "F32ToI64": "ext", "I64ToF32": "wrap", "I64ToP64": "id", "P64ToI64": "id",
+                "PToP64": "low32", "P64ToP": "wrap", "I32ToP": "id", "PToI32": "id", "I32ToL": "id", "LToI32": "id",
+                "LToP": "id", "PToL": "id"}
+
+
+def check_bitcast(be, name, tmpl, helpers=None):
+    lang = BACKENDS[be]["lang"]
+    if name == "None":
+        return Verdict(tmpl.text == OPERAND and not tmpl.prelude.strip(), f"`{tmpl.show()}` must be the operand itself")
+    a, b = name.split("To", 1)
+    mode = BITCAST_MODE[name]
+    try:
+        _, wasm = backend_tables(be)
+        src, dst = ltype(lang, wasm[_ABBR[a]]), ltype(lang, wasm[_ABBR[b]])
+        r0 = evaluate(lang, tmpl.text, symbolic(src), helpers, tmpl.prelude)
+        note = ""
+        pointerish = bool({a, b} & {"P", "P64", "L"})
+        try:
+            r = convert(lang, r0, dst, explicit=False)
+        except Unknown as e:
+            if not pointerish or r0.ty.kind not in ("int", "ptr"):
+                raise
+            # pointer/length forms: identity-or-representation-change; only the bits are decided
+            r = convert(lang, r0, dst, explicit=True) if lang in ("c", "cpp", "d", "rust") or dst.kind == "int" else r0
+            note = f" (note: the template's type is {r0.ty.name}, the slot is declared {dst.name}: {e})"
+        got, ws, wd = r.bits, src.width, dst.width
+        lo = min(ws, wd, 32 if mode == "low32" else 64)
+        ok = got[:lo] == [IN(k) for k in range(lo)]
+        if mode == "id":
+            ok = ok and ws == wd and lo == wd
+        elif mode == "wrap":
+            ok = ok and lo == wd
+        elif mode == "ext":
+            up = got[ws:]
+            ok = ok and lo == ws and wd > ws and (all(x == 0 for x in up) or all(x == IN(ws - 1) for x in up))
+        want = {"id": "every bit kept", "wrap": f"low {wd} bits kept", "ext": f"the {ws} source bits kept, upper bits a sign or zero extension",
+                "low32": "low 32 bits kept"}[mode]
+        if ok:
+            return Verdict(True, f"{src.name} -> {dst.name}: {show_bits(got)}{note}", r)
+        return Verdict(False, f"`{tmpl.show()}` is not {want} ({src.name} -> {dst.name}): abstract result {show_bits(got)}{note}", r)
+    except Unknown as e:
+        return Verdict(False, f"`{tmpl.show()}`: not discharged: {e}")
+
+
+_HELPERS = {}
+
+
+def cached_helpers(be):
+    if be not in _HELPERS:
+        _HELPERS[be] = helpers_for(be)
+    return _HELPERS[be]
+
+
+def check_bitcasts(rep, rule_id, backend_name, fninfo, match_node):
+    """C04 R4.4: discharge every `Bitcast::X` arm of a backend's cast function (called from rules/C04.py)."""
+    helpers = cached_helpers(backend_name)
+    n = 0
+    for arm in synq.arms(match_node):
+        for h in arm.heads:
+            if not h.startswith("Bitcast::"):
+                continue
+            name = synq.short(h)
+            if name == "Sequence":
+                continue  # composition is checked structurally by the caller
+            if name != "None" and name not in BITCAST_MODE:
+                rep.ob(rule_id, f"{backend_name}: Bitcast::{name} conversion template is canonical", False,
+                       "variant not in convsem's Bitcast table", fninfo.loc(arm.node))
+                continue
+            try:
+                tmpl = cast_template(fninfo, arm)
+                v = check_bitcast(backend_name, name, tmpl, helpers)
+            except Unknown as e:
+                v = Verdict(False, f"template could not be extracted: {e}")
+            n += 1
+            rep.ob(rule_id, f"{backend_name}: Bitcast::{name} conversion template is canonical", v.ok, v.detail, fninfo.loc(arm.node))
+    rep.floor(rule_id, f"{backend_name}: Bitcast arms evaluated by convsem", n, 21)
+
+
+def primitive_table():
+    rows = [f"{k[0]}: {k[2] if k[1] in ('call', 'mcall') else k[1] + '::' + k[2]} — {v[3]}" for k, v in sorted(PRIMS.items())]
+    rows += [f"{lang}: casts / implicit conversions — {txt}" for lang, txt in sorted(CAST_RULE.items())]
+    rows += [f"{k} — {v}" for k, v in OTHER_RULES.items()]
+    return rows
+
+
+if __name__ == "__main__":
+    import sys
+    only = sys.argv[1:] or list(BACKENDS)
+    for be in only:
+        d = BACKENDS[be]
+        f = synq.find_fn(d["emit"], "emit")
+        m = instruction_match(f)
+        hp = cached_helpers(be)
+        print(f"== {be}")
+        for ins in SCALAR_INSTRUCTIONS:
+            a = synq.arm_for(m, "Instruction::" + ins)
+            try:
+                v = check_scalar(be, ins, emit_template(f, a), hp)
+            except Unknown as e:
+                v = Verdict(False, f"extract: {e}")
+            print(f"  {'ok  ' if v.ok else 'FAIL'} {ins:16} {v.detail}")
+        cf = [x for x in synq.all_fns(d["cast"][0]) if x.name == d["cast"][1] and x.body is not None][0]
+        cm = synq.find_match(cf.body, "Bitcast::", min_arms=5)
+        for arm in synq.arms(cm):
+            for h in arm.heads:
+                nm = synq.short(h)
+                if nm == "Sequence" or not h.startswith("Bitcast::"):
+                    continue
+                try:
+                    v = check_bitcast(be, nm, cast_template(cf, arm), hp)
+                except Unknown as e:
+                    v = Verdict(False, f"extract: {e}")
+                print(f"  {'ok  ' if v.ok else 'FAIL'} Bitcast::{nm:10} {v.detail}")
